@@ -256,6 +256,25 @@ pub fn shim_btreeset_copied_filter_map_collect<K: Ord + Copy, V, F: FnMut(K) -> 
 {
     s.iter().copied().filter_map(f).collect()
 }
+/// N2 shim for `MAP.iter().filter_map(F).collect()` into a BTreeMap, F key-preserving
+#[verifier::external_body]
+pub fn shim_btreemap_iter_filter_map_collect<'a, K: Ord + Copy, V, W, F: FnMut((&'a K, &'a V)) -> Option<(K, W)>>(m: &'a BTreeMap<K, V>, f: F) -> (r: BTreeMap<K, W>)
+    requires
+        forall|k: K| m@.contains_key(k) ==> call_requires(f, ((&k, &#[trigger] m@[k]),)),
+        forall|k: K, o: Option<(K, W)>| m@.contains_key(k) && #[trigger] call_ensures(f, ((&k, &m@[k]),), o) ==> (o matches Some(q) ==> q.0 == k),
+    ensures
+        forall|k: K| #[trigger] r@.contains_key(k) ==> m@.contains_key(k) && call_ensures(f, ((&k, &m@[k]),), Some((k, r@[k]))),
+        forall|k: K| #[trigger] m@.contains_key(k) && !r@.contains_key(k) ==> call_ensures(f, ((&k, &m@[k]),), None),
+{
+    m.iter().filter_map(f).collect()
+}
+/// `OPTION.unwrap_or_default()` for an Option<BTreeMap>
+#[verifier::external_body]
+pub fn shim_option_btreemap_unwrap_or_default<K: Ord, V>(o: Option<BTreeMap<K, V>>) -> (r: BTreeMap<K, V>)
+    ensures o is Some ==> r == o->0, o is None ==> r@ == vstd::map::Map::<K, V>::empty(),
+{
+    o.unwrap_or_default()
+}
 /// N2 shim for `SET.iter().all(F)`
 #[verifier::external_body]
 pub fn shim_btreeset_iter_all<K: Ord, F: FnMut(&K) -> bool>(s: &BTreeSet<K>, Ghost(p): Ghost<spec_fn(K) -> bool>, f: F) -> (r: bool)
